@@ -356,7 +356,151 @@ def _run(tok):
     if op == "w_bip85":
         w = make_wallet(a[0])
         return sx(_bip85_call(w.bip85, a[1], int(a[2]), int(a[3])))
+    if op == "cli":
+        return cli_run(a[0], unhex(a[1]), [] if a[2] == "=" else [unstr(x) for x in a[2].split(",")])[0]
+    if op == "hist":
+        w = make_wallet(a[0])
+        return " ; ".join(hist_run(w, a[1].split(";")))
     raise KeyError("unknown op " + op)
+
+
+def cli_run(fs, osbytes, argv, keep=None):
+    """Run `main()` in-process on argv (token `@F` = the --file path of class `fs`).
+    Returns (canonical outcome, details dict)."""
+    import contextlib
+    import json
+    import shutil
+    import tempfile
+    tmp = tempfile.mkdtemp(prefix="verif_cli_")
+    try:
+        path = os.path.join(tmp, "out.json")
+        if fs == "file":
+            with open(path, "w") as f:
+                f.write("EXISTING")
+        elif fs == "dir":
+            path = os.path.join(tmp, "sub")
+            os.mkdir(path)
+        elif fs == "noparent":
+            path = os.path.join(tmp, "missing", "out.json")
+        real = [path if t == "@F" else t for t in argv]
+        out, err = io.StringIO(), io.StringIO()
+        saved_argv = sys.argv
+        sys.argv = ["btc_hd_wallet"] + real
+        status = 0
+        try:
+            with contextlib.redirect_stdout(out), contextlib.redirect_stderr(err), _Urandom(osbytes):
+                try:
+                    cli.main()
+                except SystemExit as e:
+                    status = e.code if isinstance(e.code, int) else (0 if e.code is None else 1)
+                except BaseException:
+                    status = 1
+        finally:
+            sys.argv = saved_argv
+        stdout = out.getvalue()
+        listing = sorted(os.listdir(tmp))
+        created = None
+        if fs == "file":
+            if open(path).read() != "EXISTING":
+                return "overwrote-existing-file", {"status": status}
+            extra = [x for x in listing if x != "out.json"]
+        elif fs == "dir":
+            extra = [x for x in listing if x != "sub"] + os.listdir(path)
+        else:
+            extra = listing
+        if extra:
+            if fs == "absent" and extra == ["out.json"]:
+                created = open(path).read()
+            else:
+                return "unexpected-files %s" % extra, {"status": status}
+        det = {"status": status, "stdout": stdout, "created": created, "stderr": err.getvalue()[-300:]}
+        if status != 0:
+            if created is not None:
+                return "nonzero-status-but-file-created", det
+            if stdout == "":
+                return "reject", det
+            if stdout.startswith("usage:") and "{" not in stdout.replace("{new,", "").replace("{new", ""):
+                return "help", det
+            return "nonzero-status-with-output " + sx(stdout[:200]), det
+        if created is not None:
+            if stdout != "":
+                return "file-and-stdout", det
+            return "emit file " + jsonS(json.loads(created)), det
+        return "emit stdout " + jsonS(json.loads(stdout)), det
+    finally:
+        shutil.rmtree(tmp, ignore_errors=True)
+
+
+class HistCtx:
+    """Handle tables of one client (thread) working on a shared wallet."""
+
+    def __init__(self, w):
+        self.w = w
+        self.nodes = [w.master]
+        self.gens = []
+
+    def do(self, opstr):
+        try:
+            return self._do(opstr)
+        except (KeyboardInterrupt, SystemExit):
+            raise
+        except BaseException:
+            return "err"
+
+    def _new(self, node, parent):
+        if node is not parent:
+            self.nodes.append(node)
+        return nodeS(node)
+
+    def _do(self, opstr):
+        t = opstr.split(":")
+        w = self.w
+        k = t[0]
+        if k == "bp":
+            n = w.by_path(unstr(t[1]))
+            return self._new(n, w.master)
+        if k == "ckd":
+            par = self.nodes[int(t[1])]
+            return self._new(par.ckd(int(t[2])), par)
+        if k == "gc":
+            par = self.nodes[int(t[1])]
+            cs = par.generate_children(interval=(int(t[2]), int(t[3])))
+            self.nodes.extend(cs)
+            return "L " + " / ".join(nodeS(c) for c in cs)
+        if k == "dp":
+            par = self.nodes[int(t[1])]
+            return self._new(par.derive_path(unlist(int, t[2])), par)
+        if k == "ad":
+            return "t" + sx(_none_err(addr_fn(w, t[2])(self.nodes[int(t[1])])))
+        if k == "xk":
+            return jsonS(w.node_extended_keys(self.nodes[int(t[1])]))
+        if k == "ng":
+            node = self.nodes[int(t[1])]
+            self.gens.append(w.address_generator(node, addr_fn(w, t[2])))
+            return "g%d" % (len(self.gens) - 1)
+        if k == "nx":
+            a, b = next(self.gens[int(t[1])])
+            return "p%s %s" % (sx(a), sx(b))
+        if k == "sd":
+            a, b = self.gens[int(t[1])].send(int(t[2]))
+            return "p%s %s" % (sx(a), sx(b))
+        if k == "b85":
+            app = ["mnemonic", "wif", "xprv", "hex", "pwd"][int(t[1])]
+            return "t" + sx(_bip85_call(w.bip85, app, int(t[2]), int(t[3])))
+        if k == "rep":
+            return jsonS(w.generate(account=int(t[1]), interval=(int(t[2]), int(t[3]))))
+        if k == "was":
+            import json
+            return jsonS(json.loads(w.wasabi_json()))
+        if k == "root":
+            m = w.master
+            return "t" + sx(m.extended_private_key() if type(m) is bip32.PrvKeyNode else m.extended_public_key())
+        raise KeyError(k)
+
+
+def hist_run(w, ops):
+    ctx = HistCtx(w)
+    return [ctx.do(o) for o in ops]
 
 
 def _bip85_call(b, app, param, index):
